@@ -149,6 +149,24 @@ void harness(void)
 	}
 #endif
 
+#ifdef TWOSTEP
+	/* history: an earlier lookup re-read a DIFFERENT on-disk fragment block into
+	   the cache (symbolic index and location); the lookup checked below must
+	   still see the bytes of ITS block, not the cached ones */
+	{
+		chunk_info_t prev = cand;
+		sqfs_u32 save_idx = ft_index, save_size = ft_size;
+		sqfs_u64 save_start = ft_start;
+		prev.index = ND_U32();
+		VP_ASSUME(prev.index != cand.index);
+		ft_index = prev.index;
+		ft_start = ND_U64();
+		ft_size = (ND_U32() & 7) | (1u << 24);
+		(void)chunk_info_equals(proc, &key, &prev);
+		proc->fblk_lookup_error = 0;
+		ft_index = save_idx; ft_size = save_size; ft_start = save_start;
+	}
+#endif
 	eq = chunk_info_equals(proc, &key, &cand);
 
 	if (eq) {
